@@ -193,27 +193,31 @@ def run(prop, tier, replay):
         scenarios = [payload["case"]["scenario"]]
     else:
         steps = 3 if quick else 4
-        gens = {}
-
-        def g(p):
-            pool, metric, st = p
-            return p, _gen(f"{prop}-{pool}-{metric}", pool, metric, st, "GenPrint QryPrint PoolPrint VarPrint")
-
-        todo = [(1, "l2", steps), (2, "dot", 0), (3, "cosine", 0), (4, "l2", 0)]
-        with cf.ThreadPoolExecutor(max_workers=2) as ex:
-            for p, r in ex.map(g, todo):
-                gens[p[0]] = r
-        hists = sorted(gens[1]["SCN"], key=json.dumps)
-        variants = {k: sorted(v, key=lambda x: json.dumps(x, sort_keys=True)) for k, v in gens[1]["VAR"][0].items()}
-        pools = {pid: gens[pid]["POOL"][0] for pid in gens}
-        qsets = {"l2": gens[1]["QRY"][0], "cosine": gens[3]["QRY"][0], "dot": gens[2]["QRY"][0]}
-        qsets = {m: sorted(q, key=lambda x: json.dumps(x, sort_keys=True)) for m, q in qsets.items()}
+        gen = _gen(f"{prop}-gen", 1, "l2", steps, "GenPrint QryPrint PoolPrint VarPrint")
+        hists = sorted(gen["SCN"], key=json.dumps)
+        variants = {k: sorted(v, key=lambda x: json.dumps(x, sort_keys=True)) for k, v in gen["VAR"][0].items()}
+        pools = {i + 1: p for i, p in enumerate(gen["POOL"][0])}
+        qsets = {m: sorted(q, key=lambda x: json.dumps(x, sort_keys=True)) for m, q in gen["QRY"][0].items()}
         if not hists or not variants["indexed"] or any(len(q) < 100 for q in qsets.values()):
             raise vlib.ToolError("scenario generation produced nothing")
         useful = [h for h in hists if any(s["op"] == "index" for s in h)]
         plain = [h for h in hists if not any(s["op"] == "index" for s in h)]
         nscn = (72 if quick else 900)
-        picked = rnd.sample(useful, min(len(useful), nscn * 5 // 6)) + rnd.sample(plain, min(len(plain), nscn // 6))
+
+        def after_index(h, op):
+            i = next((j for j, s in enumerate(h) if s["op"] == "index"), None)
+            return i is not None and any(s["op"] == op for s in h[i + 1:])
+
+        # strata: every kind of step after the index was built must be well represented
+        picked = []
+        for op in ("optimize", "compact", "append", "delete"):
+            stratum = [h for h in useful if after_index(h, op) and h not in picked]
+            picked += rnd.sample(stratum, min(len(stratum), nscn // 6))
+        both = [h for h in useful if after_index(h, "append") and h[-1]["op"] == "optimize" and h not in picked]
+        picked += rnd.sample(both, min(len(both), nscn // 12))
+        rest = [h for h in useful if h not in picked]
+        picked += rnd.sample(rest, max(0, min(len(rest), nscn * 5 // 6 - len(picked))))
+        picked += rnd.sample(plain, min(len(plain), nscn // 6))
         rnd.shuffle(picked)
         scenarios = []
         for i, h in enumerate(picked):
@@ -222,7 +226,7 @@ def run(prop, tier, replay):
                                             nq=2 if quick else 3, nvar=6 if quick else 10))
         gen_info = {"histories_generated_by_tlc": len(hists), "histories_with_index": len(useful), "histories_replayed": len(picked),
                     "query_universe": {m: len(q) for m, q in qsets.items()}, "variants": {k: len(v) for k, v in variants.items()},
-                    "history_steps": steps, "gen_stats": gens[1]["stats"]}
+                    "history_steps": steps, "gen_stats": gen["stats"]}
     # 3. drive + 4. validate --------------------------------------------------------------------------
     reports, scn_file, build_s = run_traces(prop, scenarios, shards=4 if quick else 8, mutate=mutate)
     collect_mc()
@@ -232,6 +236,7 @@ def run(prop, tier, replay):
     bad_scn = set()
     samples = []
     distinct = set()
+    observations = {}
     for tf, rep, hs, vs in reports:
         events += rep["events"]
         for k, v in rep["counts"].items():
@@ -248,6 +253,14 @@ def run(prop, tier, replay):
             out.report(sig, f"{clause} in mode {mode}: scenario {scn} step {i} {json.dumps(ev['step'])[:200]} -> "
                             f"{json.dumps(result)[:300] if result else ev['res'] + ' ' + ev.get('text', '')[:200]} table={json.dumps(ev['tbl'])[:300]}",
                        {"scenario": by_id.get(scn), "step": i, "variant": j, "clause": clause, "mode": mode, "event": ev})
+        for b in rep.get("info", []):
+            pos, scn, i, j, clause, mode = b
+            ev = json.loads(lines[pos - 1])
+            key = (clause, tuple(mode))
+            if key not in observations:
+                observations[key] = {"clause": clause, "mode": mode, "count": 0, "scenario": by_id.get(scn), "step": i,
+                                     "query": ev["step"], "result": ev["extra"]["results"][j - 1], "table": ev["tbl"]}
+            observations[key]["count"] += 1
         for ln in lines:
             ev = json.loads(ln)
             if ev.get("ev") == "step" and ev["step"]["op"] == "query" and "rows" in ev["tbl"]:
@@ -266,6 +279,9 @@ def run(prop, tier, replay):
         missing = [c for c in REQUIRED if counts.get(c, 0) == 0]
         if missing or counts.get("judged", 0) < 200:
             raise vlib.ToolError(f"vacuous run: nothing exercised for {missing} (judged={counts.get('judged', 0)})")
+    for o in observations.values():
+        print(f"INFO property={prop} not judged (mode does not claim exactness): {o['clause']} in mode {o['mode']} x{o['count']}, "
+              f"e.g. scenario {o['scenario']['id'] if o['scenario'] else '?'} step {o['step']}: {json.dumps(o['result'])[:200]}")
     rc = out.finish()
     vlib.write_evidence(prop, tier, "model_checking", {
         "states": sum(m["distinct"] or 0 for m in mcs), "transitions": sum(m["generated"] or 0 for m in mcs),
@@ -275,6 +291,7 @@ def run(prop, tier, replay):
                 "distinct (table contents + index coverage, query point, k, filter, execution variant) combinations whose answer was non-empty",
         "exhaustive": False, "model_runs": mcs, "event_counts": counts, "events_validated": events,
         "scenarios": len(scenarios), "harness_build_s": build_s,
+        "observations_not_judged": [{k: v for k, v in o.items() if k != "scenario"} for o in observations.values()],
         "harness_s": [round(r[2], 1) for r in reports], "validation_s": [r[3] for r in reports], **gen_info,
     }, time.time() - t0, len(out.violations), assumptions)
     return rc
